@@ -36,6 +36,10 @@ ASSUMPTIONS = [
     "simulator-specific part is the newline/BOM/reader/chunking half (DESIGN.md §4 C06)",
     "lone-CR newlines, BOM through from_file with a non-sig decoder, duplicate headers and bare "
     "braces inside bodies are outside the statement and are not generated",
+    "the canonical observation comes from a process forked from the pristine image; a quarter of "
+    "the runs read their variants from two concurrent clients, cold; unknown-section reports are "
+    "counted, never matched by text; a case variant of one of the 40 names is an unknown section",
+    "a read hit by an injected EIO may fail in any way; a chart it returns is judged like any other",
 ]
 UNKNOWN_NAMES = ["Foo", "PART VOCALS", "ExpertSingleX", "expertsingle", "Song2", "Events2",
                  "ExpertGuitar", "Sync Track"]
